@@ -258,7 +258,7 @@ class C03:
         n = ctx.scale(2000, 30000)
         base = ctx.seed * 5000011
         lines = [f"encr {base + i} {rng.randint(0, 5)} {rng.randint(0, 1)}" for i in range(n)]
-        # directed: every leaf type in every kind of typed container ([]T, [3]T, map[string]T, *T, []*T, struct{F T; S []T}) x protocols
+        # directed: every leaf type in every kind of typed container ([]T, [3]T, map[string]T, *T, []*T, struct{F T; S []T}, (*T)(nil), []*T{nil, nil}) x protocols
         lines += [f"encr {-(k + 1)} {p} {rng.randint(0, 1)}" for k in range(DIRECTED_REFLECT) for p in range(6)]
         go = C.run_sharded(C.run_go, lines)
         mlines = []
@@ -338,8 +338,14 @@ class C05:
             pay = bytes((i * 3 + 2) % 200 + 32 for i in range(n))
             ins += [b"T" + struct.pack("<I", n) + pay + b".", b"B" + struct.pack("<I", n) + pay + b".",
                     b"\x96" + struct.pack("<Q", n) + pay + b".", b"X" + struct.pack("<I", n) + b"u" * n + b"."]
+        # every edge string (format verbs, invalid UTF-8, text of fewer than 256 characters in more than 255 bytes, ...) decoded as
+        # unicode, bytes and Python-2 str, then re-encoded at every protocol
+        for t in V.EDGE_STRINGS[256:]:
+            ins += [b"X" + struct.pack("<I", len(t)) + t + b".", b"B" + struct.pack("<I", len(t)) + t + b".", b"T" + struct.pack("<I", len(t)) + t + b".",
+                    b"(X" + struct.pack("<I", len(t)) + t + b"K\x01t."]
         # globals whose module / name holds a newline, a carriage return, quotes (only re-encodable from protocol 4 on)
-        for m, n in ((b"m", b"a\n."), (b"m\n", b"n"), (b"m", b"\n"), (b"\nm", b"n\n"), (b"mod", b"a\nb"), (b"m", b"n\r"), (b"m", b"'\"")):
+        for m, n in ((b"m", b"a\n."), (b"m\n", b"n"), (b"m", b"\n"), (b"\nm", b"n\n"), (b"mod", b"a\nb"), (b"m", b"n\r"), (b"m", b"'\""),
+                     (b"foo\r", b"bar\r"), (b"\rm", b"n"), (b"mod", b"a%sb"), (b"100%", b"%d"), (b" m ", b" n "), (b"m\t", b"n\x00")):
             sg = b"\x8c" + bytes([len(m)]) + m + b"\x8c" + bytes([len(n)]) + n + b"\x93"
             ins += [sg + b".", sg + b")R.", b"(" + sg + b"K\x01t.", b"\x80\x04" + sg + b"\x94."]
         # one content as unicode, bytes and py2 str keys in every order (the py2 str equals both others, which differ):
@@ -531,7 +537,11 @@ class C12:
                 ops = list(pickletools.genops(data))
                 maxp = max(o.proto for o, _, _ in ops)
                 ok = maxp <= p and ops[-1][0].name == "STOP" and (ops[0][0].name == "PROTO") == (p >= 2)
-            except (UnicodeDecodeError, ValueError):
+            except (UnicodeDecodeError, ValueError) as e:
+                if isinstance(e, ValueError) and ("invalid literal for int" in str(e) or "could not convert string to float" in str(e)):
+                    ctx.violate("argument layout: the text argument of a numeric opcode is not a number (" + str(e)[:80] + ")", line[:3000],
+                                "a decimal / float literal", sl[:600])
+                    continue
                 # pickletools decodes / escape-decodes text arguments for display (ASCII, UTF-8, backslashes in GLOBAL
                 # names); byte strings that are not text are legal pickle content (py2 str); K3 covers invalid UTF-8
                 ctx.count("pickletools:text-argument-not-displayable")
@@ -551,16 +561,20 @@ class C12:
     def scan_reflect(self, ctx):
         """Go types no value token describes (structs incl. field-less ones, typed maps / slices / arrays, pointers,
         named types): whatever the implementation writes for them at protocol p is scanned with the same table."""
+        import pickletools
         rng = ctx.rng
         n = ctx.scale(2500, 40000)
         base = ctx.seed * 5000011
         lines = [f"encr {base + i} {rng.randint(0, 5)} {rng.randint(0, 1)}" for i in range(n)]
-        # directed: every leaf type in every kind of typed container ([]T, [3]T, map[string]T, *T, []*T, struct{F T; S []T}) x protocols
+        # directed: every leaf type in every kind of typed container ([]T, [3]T, map[string]T, *T, []*T, struct{F T; S []T}, (*T)(nil), []*T{nil, nil}) x protocols
         lines += [f"encr {-(k + 1)} {p} {rng.randint(0, 1)}" for k in range(DIRECTED_REFLECT) for p in range(6)]
         go = C.run_sharded(C.run_go, lines)
         scan_lines, scan_meta = [], []
         for line, g in zip(lines, go):
             ctx.evaluations += 1
+            if " => PANIC" in g:
+                ctx.violate("Encode panicked (whatever was written before is no pickle)", line + "   value: " + g.split(" => ")[0][:1200],
+                            "one whole pickle or an error", g.split(" => ", 1)[1][:300])
             if " => OK " not in g:
                 continue
             desc, res = g.split(" => ", 1)
@@ -575,6 +589,15 @@ class C12:
             if vd != "OK":
                 ctx.violate("the encoder's output for a Go value does not conform to the requested protocol: " + vd,
                             line + "   value: " + desc[:1200], "OK", sl[:1500])
+                continue
+            try:
+                list(pickletools.genops(bytes.fromhex(sl.split(" ")[2]) if sl.split(" ")[2] != "-" else b""))
+            except ValueError as e:
+                if "invalid literal for int" in str(e) or "could not convert string to float" in str(e):
+                    ctx.violate("argument layout: the text argument of a numeric opcode is not a number (" + str(e)[:80] + ")",
+                                line + "   value: " + desc[:1200], "a decimal / float literal", sl[:600])
+            except Exception:   # noqa  (display limits of pickletools: not this check's subject)
+                pass
 
 
 # ------------------------------------------------------------------------------------------- C13
@@ -737,7 +760,7 @@ class C13:
 
 # ------------------------------------------------------------------------------------------- C15
 
-DIRECTED_REFLECT = 50 * 6 * 3      # (leaf types of the harness generator, rounded up) x container kinds x repetitions with different content
+DIRECTED_REFLECT = 50 * 8 * 3      # (leaf types of the harness generator, rounded up) x container kinds x repetitions with different content
 
 
 class C15:
@@ -768,7 +791,7 @@ class C15:
         n = ctx.scale(6000, 120000)
         base = ctx.seed * 1000003
         lines = [f"encr {base + i} {rng.randint(0, 5)} {rng.randint(0, 1)}" for i in range(n)]
-        # directed: every leaf type in every kind of typed container ([]T, [3]T, map[string]T, *T, []*T, struct{F T; S []T}) x protocols
+        # directed: every leaf type in every kind of typed container ([]T, [3]T, map[string]T, *T, []*T, struct{F T; S []T}, (*T)(nil), []*T{nil, nil}) x protocols
         lines += [f"encr {-(k + 1)} {p} {rng.randint(0, 1)}" for k in range(DIRECTED_REFLECT) for p in range(6)]
         go = C.run_sharded(C.run_go, lines)
         mlines = []
